@@ -20,6 +20,7 @@ type VStr struct{ Arr, Off, Len string }
 type VSlice struct {
 	Base, Off, Len, Cap string
 	Elem                types.Type
+	Reg                 string // read-only region the backing array lives in ("" = ordinary heap)
 }
 type VIface struct{ Typ, Pay string } // Typ == 0 <=> nil interface
 type VStruct struct {
@@ -38,6 +39,7 @@ type VPtr struct {
 	Glob  *ssa.Global
 	T     types.Type // type of the root object / element
 	Path  []int      // field path below the root
+	Reg   string     // rootElem: region of the backing array
 }
 
 // VOpaque is a value the engine does not model (channels, funcs outside the subset ...).
@@ -151,7 +153,7 @@ func rebuild(proto Val, ts []string) (Val, []string) {
 	case VStr:
 		return VStr{ts[0], ts[1], ts[2]}, ts[3:]
 	case VSlice:
-		return VSlice{ts[0], ts[1], ts[2], ts[3], v.Elem}, ts[4:]
+		return VSlice{ts[0], ts[1], ts[2], ts[3], v.Elem, v.Reg}, ts[4:]
 	case VIface:
 		return VIface{ts[0], ts[1]}, ts[2:]
 	case VStruct:
